@@ -102,6 +102,21 @@ class Gen:
             lambda: "HCOLOR %s,%s" % (n(1), n(1)),
             lambda: "HLINE(%s,%s)-(%s,%s),PSET%s" % (n(1), n(1), n(1), n(1), r.choice(("", ",B", ",BF"))),
             lambda: "HCIRCLE(%s,%s),%s" % (n(1), n(1), n(1)),
+            # every optional-argument form of the circle family: colour given or left empty,
+            # ratio (ellipse), start/end (arc)
+            lambda: "HCIRCLE(%s,%s),%s,%s" % (n(1), n(1), n(1), n(1)),
+            lambda: "HCIRCLE(%s,%s),%s,%s,%s" % (n(1), n(1), n(1), r.choice(("", n(1))), n(1)),
+            lambda: "HCIRCLE(%s,%s),%s,%s,%s,%s,%s" % (n(1), n(1), n(1), r.choice(("", n(1))), n(1), n(1), n(1)),
+            lambda: "HLINE-(%s,%s),%s%s" % (n(1), n(1), r.choice(("PSET", "PRESET")), r.choice(("", ",B", ",BF"))),
+            lambda: "HPAINT(%s,%s)%s" % (n(1), n(1), r.choice(("", ",%s" % n(1), ",%s,%s" % (n(1), n(1))))),
+            lambda: "HSET(%s,%s,%s)" % (n(1), n(1), n(1)),
+            lambda: "HCOLOR %s" % n(1),
+            lambda: "HSCREEN",
+            lambda: "HPRINT(%s,%s),%s" % (n(1), n(1), n(1)),
+            lambda: r.choice(("RGB", "CMP")),
+            lambda: "POKE %s,%s" % (r.choice(("65494", "65495", "65496", "65497", "&HFFD6", "&HFFD7", "&HFFD8",
+                                               "&HFFD9", "1024", "65280")), r.choice(("0", n(1)))),
+            lambda: "CLEAR %s" % r.choice(("", "200", "1000")),
             lambda: "HPRINT(%s,%s),%s" % (n(1), n(1), self.str(1)),
             lambda: "HSET(%s,%s)" % (n(1), n(1)),
             lambda: "HRESET(%s,%s)" % (n(1), n(1)),
@@ -141,110 +156,29 @@ class Gen:
                                          ",".join(self.target() for _ in range(r.randint(1, 4))))
             return "IF %s THEN %s" % (self.cond(), self.target())
         c = r.random()
-        if c < 0.18:
-            return "%s=%s" % (r.choice(NUM_NAMES), self.num())
-        if c < 0.3:
-            return "%s=%s" % (r.choice(STR_NAMES), self.str())
-        if c < 0.38:
-            return "%s(%s)=%s" % (r.choice(ARR_NAMES), self.num(1), self.num())
-        if c < 0.44:
-            return "%s(%s)=%s" % (r.choice(SARR_NAMES), self.num(1), self.str())
-        if c < 0.56:
-            items = []
-            for _ in range(r.randint(0, 3)):
-                items.append(self.num(1) if r.random() < 0.5 else self.str(1))
-            return "PRINT " + r.choice((";", ",")).join(items)
-        if c < 0.6:
-            return "PRINT@%s,%s" % (self.num(1), self.str(1))
-        if c < 0.66:
-            if r.random() < 0.2:
-                return "LINE INPUT %s%s" % (r.choice(("", '"NAME";')), r.choice(STR_NAMES))
-            return "INPUT %s%s" % (r.choice(("", '"NAME";')),
-                                   ",".join(r.choice(NUM_NAMES + STR_NAMES)
-                                            for _ in range(r.randint(1, 3))))
-        if c < 0.72:
-            return "%s+%s" % (self.str(depth + 1), self.str(depth + 1))
-        if c < 0.78:
-            return "LEFT$(%s,%s)" % (self.str(depth + 1), self.num(depth + 1))
-        if c < 0.82:
-            return "MID$(%s,%s,%s)" % (self.str(depth + 1), self.num(depth + 1), self.num(depth + 1))
-        if c < 0.87:
-            return "CHR$(%s)" % self.num(depth + 1)
-        if c < 0.91:
-            return "STR$(%s)" % self.num(depth + 1)
-        if c < 0.94:
-            return "HEX$(%s)" % self.num(depth + 1)
-        if c < 0.97:
-            return "STRING$(%s,%s)" % (self.num(depth + 1), self.str(depth + 1))
-        return "INKEY$"
-
-    def cond(self):
-        r = self.r
-        if r.random() < 0.3:
-            return "%s%s%s" % (self.str(1), r.choice(("=", "<>", "<", ">")), self.str(1))
-        c = "%s%s%s" % (self.num(1), r.choice(("=", "<>", "<", ">", "<=", ">=")), self.num(1))
-        if r.random() < 0.2:
-            c += r.choice((" AND ", " OR ")) + "%s%s%s" % (self.num(1), r.choice(("=", "<")), self.num(1))
-        return c
-
-    def target(self, bad=0.0):
-        r = self.r
-        if r.random() < bad:
-            return r.choice((str(r.randint(20000, 30000)), "32700", "40000", "65000"))
-        return str(r.choice(self.linenos)) if self.linenos else "10"
-
-    # ---- statements
-    def device(self):
-        r = self.r
-        n = self.num
-        return r.choice((
-            lambda: "CLS %s" % r.choice(("", "0", "3")),
-            lambda: "SOUND %s,%s" % (n(1), n(1)),
-            lambda: "PLAY %s" % self.str(1),
-            lambda: "HSCREEN %s" % r.choice("01234"),
-            lambda: "HCLS %s" % r.choice(("", "1")),
-            lambda: "HCOLOR %s,%s" % (n(1), n(1)),
-            lambda: "HLINE(%s,%s)-(%s,%s),PSET%s" % (n(1), n(1), n(1), n(1), r.choice(("", ",B", ",BF"))),
-            lambda: "HCIRCLE(%s,%s),%s" % (n(1), n(1), n(1)),
-            lambda: "HPRINT(%s,%s),%s" % (n(1), n(1), self.str(1)),
-            lambda: "HSET(%s,%s)" % (n(1), n(1)),
-            lambda: "HRESET(%s,%s)" % (n(1), n(1)),
-            lambda: "HBUFF %s,%s" % (r.choice("123"), r.choice(("100", "2000"))),
-            lambda: "HGET(%s,%s)-(%s,%s),%s" % (n(1), n(1), n(1), n(1), r.choice("123")),
-            lambda: "HPUT(%s,%s)-(%s,%s),%s,%s" % (n(1), n(1), n(1), n(1), r.choice("123"),
-                                                   r.choice(("PSET", "AND", "OR", "XOR"))),
-            lambda: "HPAINT(%s,%s),%s,%s" % (n(1), n(1), n(1), n(1)),
-            lambda: "HDRAW %s" % self.str(1),
-            lambda: "PALETTE %s,%s" % (n(1), n(1)),
-            lambda: "PALETTE %s" % r.choice(("RGB", "CMP")),
-            lambda: "WIDTH %s" % r.choice(("32", "40", "80")),
-            lambda: "LOCATE %s,%s" % (n(1), n(1)),
-            lambda: "ATTR %s,%s%s" % (n(1), n(1), r.choice(("", ",B", ",U", ",B,U"))),
-            lambda: "POKE %s,%s" % (n(1), n(1)),
-            lambda: "SET(%s,%s,%s)" % (n(1), n(1), n(1)),
-            lambda: "RESET(%s,%s)" % (n(1), n(1)),
-        ))()
-
-    def statement(self, flavour):
-        r = self.r
-        c = r.random()
-        if flavour == "arrays" and c < 0.5:
-            if r.random() < 0.6:
-                return "%s(%s)=%s" % (r.choice(ARR_NAMES), self.num(1), self.num())
-            return "%s(%s)=%s" % (r.choice(SARR_NAMES), self.num(1), self.str())
-        if flavour == "strings" and c < 0.5:
-            return "%s=%s" % (r.choice(STR_NAMES), self.str())
-        if flavour == "devices" and c < 0.6:
-            return self.device()
-        if flavour == "jumps" and c < 0.5:
-            k = r.random()
-            if k < 0.4:
-                return "%s %s" % (r.choice(("GOTO", "GOSUB")), self.target())
-            if k < 0.7:
-                return "ON %s %s %s" % (self.num(1), r.choice(("GOTO", "GOSUB")),
-                                         ",".join(self.target() for _ in range(r.randint(1, 4))))
-            return "IF %s THEN %s" % (self.cond(), self.target())
-        c = r.random()
+        if c < 0.03:
+            # rarely used statement and expression forms of the grammar
+            return r.choice((
+                lambda: "LET %s=%s" % (r.choice(NUM_NAMES), self.num(1)),
+                lambda: "LET %s=%s" % (r.choice(STR_NAMES), self.str(1)),
+                lambda: "?%s" % self.str(1),
+                lambda: "?@%s,%s;%s" % (self.num(1), self.str(1), self.num(1)),
+                lambda: "PRINT@%s" % self.num(1),
+                lambda: "PRINT TAB(%s);%s,%s;" % (self.num(1), self.str(1), self.num(1)),
+                lambda: "PRINT %s;%s,,%s" % (self.num(1), self.num(1), self.str(1)),
+                lambda: "%s=VARPTR(%s)" % (r.choice(NUM_NAMES), r.choice(NUM_NAMES + STR_NAMES + ["A(1)", "D$(2)"])),
+                lambda: "%s=ERNO" % r.choice(NUM_NAMES),
+                lambda: "IF ERNO=%s THEN %s" % (self.num(1), self.simple()),
+                lambda: "%s=-%s" % (r.choice(NUM_NAMES), self.num(1)),
+                lambda: "%s=NOT %s" % (r.choice(NUM_NAMES), self.num(1)),
+                lambda: "%s=%s AND %s OR %s" % (r.choice(NUM_NAMES), self.num(1), self.num(1), self.num(1)),
+                lambda: "%s=%s^%s" % (r.choice(NUM_NAMES), self.num(1), self.num(1)),
+                lambda: "%s=1 E 2+.5E1" % r.choice(NUM_NAMES),
+                lambda: "%s=RIGHT$(%s,%s)+STRING$(%s,%s)" % (r.choice(STR_NAMES), self.str(1), self.num(1),
+                                                            self.num(1), self.str(1)),
+                lambda: "NEXT",
+                lambda: "FOR %s=%s TO %s STEP -%s" % (r.choice(("I", "J")), self.num(1), self.num(1), self.num(1)),
+            ))()
         if c < 0.18:
             return "%s=%s" % (r.choice(NUM_NAMES), self.num())
         if c < 0.3:
@@ -376,6 +310,8 @@ class Gen:
             else:
                 for _ in range(r.choice((1, 1, 2, 3, 4))):
                     parts.append(self.statement(flavour))
+            if r.random() < 0.03:
+                parts.append('%s="unterminated' % r.choice(STR_NAMES + ["D$(1)"]))   # last statement only
             out.append("%d %s" % (ln, ":".join(parts)))
         while open_for:
             out.append("%d NEXT %s" % (self.linenos[-1] + step * (len(out) - nlines + 1), open_for.pop()))
@@ -397,6 +333,10 @@ class Gen:
         text = sep.join(out)
         if r.random() < 0.7:
             text += "\n"
+        if r.random() < 0.05:
+            text = "\n \n" + text
+        if r.random() < 0.05:
+            text += "\x00"
         return text
 
 
